@@ -1,22 +1,22 @@
 SPECIFICATION GenLifecycleSpec
 CONSTANTS
-  DedupCap = 6
+  DedupCap = 4
   Defect_NoSessionStarted = FALSE
   Defect_CloseNoTerminal = FALSE
   Defect_SyncSpin = FALSE
   Defect_ResolveNoTerminal = FALSE
-  StoreFaults = {FALSE, TRUE}
+  StoreFaults = {FALSE}
   Defect_DropLateEvents = FALSE
   SelectAllFifo = FALSE
   Sessions = {"s1"}
   TopicNames = {"t1"}
-  LiveOps = {"r1", "x"}
-  LivePayloads = {"x", "l1"}
+  LiveOps = {"r1", "l1"}
+  LivePayloads = {"l1", "r1", "x"}
   MaxN = 1
   MaxR = 1
-  MaxFailAt = 7
-  MaxFaults = 1
-  MaxLiveIn = 2
+  MaxFailAt = 0
+  MaxFaults = 0
+  MaxLiveIn = 1
   MaxLiveQ = 2
 INVARIANTS
   ExportLifecycle
